@@ -18,8 +18,30 @@ class Obj(object):
         return f"Obj({self.n!r},{self.payload!r})"
 
 
+class Obj2(object):
+    """Same NAME as ddsim.storesim.Obj2 but another class, defined in a sub-module and without a codec of its own."""
+
+    def __init__(self, n):
+        self.n = n
+
+    def __eq__(self, other):
+        return type(other) is Obj2 and other.n == self.n
+
+    def __hash__(self):
+        return hash(("inner", self.n))
+
+    def __repr__(self):
+        return f"InnerObj2({self.n!r})"
+
+
 def mk_value(spec):
     k = spec[0]
+    if k == "obj2inner":
+        return Obj2(spec[1])
+    if k == "obj2pkg":
+        from ddsim.storesim import Obj2 as PkgObj2
+
+        return PkgObj2(spec[1])
     if k == "str":
         return spec[1]
     if k == "bigstr":
